@@ -4,7 +4,7 @@ from lib.engine import Family
 from lib.gen import *
 from lib.apigen import *
 
-THEOREMS = ["cipher_encrypt_involutive", "protect_emits_rtp_wire", "key_selected_nodup", "srtp_round_trip", "srtp_protect_unprotect",
+THEOREMS = ["protect_refines_domain", "protect_emits_rtp_wire_domain", "srtp_protect_unprotect_domain", "srtp_round_trip_classes", "srtp_round_trip_xtn", "srtp_round_trip_noxtn",
             "xtn_one_involutive", "xtn_two_involutive", "xtn_apply_outside", "xtn_apply_involutive", "cryptex_adjust_restore_id",
             "RtpEx.* (vm_compute examples: plain+MKI, RFC 6904, cryptex, four alias combinations)"]
 TRUSTED_BASE = ["Coq 8.16.1 kernel", "tools/gen_constants.py", "extraction (ExtrOcamlBasic) + harness/mdrv.ml",
